@@ -4,7 +4,7 @@
    completeMultipartUpload (numeric part order, explicit listing limit), doDeleteEmptyDirectories,
    CopyObject (source status), CopyObjectPart (upload must exist) and of the part-number test of
    PutObjectPart / CopyObjectPart (1..10000; former finding 5) — INCLUDING its remaining
-   defects (known findings 0..4 and 6; the number 5 is not reused); every full statement that the code still violates comes as
+   defects (known findings 0..4, 6 and 7 = the raw key in the filer URL of the copy handlers; the number 5 is not reused); every full statement that the code still violates comes as
    _partial (under a decidable trigger) + _refuted.  The triggers of the history theorem are raised
    per request by the model run (the flag list of [run]), never history-wide. *)
 From Coq Require Import List NArith ZArith Bool String.
@@ -193,6 +193,52 @@ Theorem c28_complete_part_list_refuted :
   all2 meets (fst (srun sinit ops)) (fst (fst (run cfg_plain init_state ops))) = false.
 Proof. exact complete_list_refuted. Qed.
 Print Assumptions c28_complete_part_list_refuted.
+
+(* finding 7: CopyObject / UploadPartCopy paste the RAW key into the filer URL, where PutObject /
+   GetObject / HeadObject / DeleteObject escape it (urlPathEscape) and CompleteMultipartUpload /
+   DeleteMultipleObjects hand the literal key to the filer: a key with '%', '?' or '#' is read from /
+   written to another path by the copies.  Full statement "every route addresses a key by its
+   literal name" refuted by a concrete history; its _partial statements: c28_history_refines_spec
+   (no request raises trigger 7) and, per key, c28_raw_url_key_literal / c28_copy_literal_keys: on
+   every key without those three characters (blank, '+', '&', '=' included) the raw-URL route sees
+   the literal key. *)
+Theorem c28_copy_raw_key_refuted :
+  let kt := ["t"%string] in let kq := ["t?u"%string] in let kf := ["f"%string] in
+  let ops := [Put kt [1]; Put kq [2; 3]; Copy kq kf; Get kf None] in
+  forallb op_in_domain ops = true /\
+  run cfg_plain init_state ops = ([ROk; ROk; ROk; RData [1]], [7], snd (run cfg_plain init_state ops)) /\
+  fst (srun sinit ops) = [EOk; EOk; EOk; EData [2; 3]] /\
+  all2 meets (fst (srun sinit ops)) (fst (fst (run cfg_plain init_state ops))) = false.
+Proof. exact copy_raw_key_refuted. Qed.
+Print Assumptions c28_copy_raw_key_refuted.
+
+Theorem c28_raw_url_key_literal : forall k, raw_meta k = false -> raw_path k = Some k.
+Proof. exact raw_path_literal. Qed.
+Print Assumptions c28_raw_url_key_literal.
+
+Theorem c28_copy_literal_keys : forall c st src dst, raw_meta src = false -> raw_meta dst = false ->
+  step c st (Copy src dst) =
+    (if path_eqb src dst then (st, RErr, []) else copy_obj c st (raw_path src) (raw_path dst)) /\
+  raw_path src = Some src /\ raw_path dst = Some dst /\
+  forall u n r, step c st (MpCopy u n src r) = mp_copy c st u n false (raw_path src) r.
+Proof. exact copy_literal_keys. Qed.
+Print Assumptions c28_copy_literal_keys.
+
+Example c28_cross_routes_example :
+  let kb := ["x y"%string] in let kp := ["dir one"%string; "i+n&a=b"%string] in
+  let ops := [Put kb [1; 2; 3]; BatchDel [kb]; Get kb None;
+              MpCreate kb; MpPut 0 2 [5; 5]; MpPut 0 1 [4]; MpComplete 0 [1; 2]; Get kb None;
+              Copy kb kp; Get kp (Some (RClosed 1 2)); Del kb; Get kb None;
+              MpCreate kb; MpCopy 1 1 kp None; MpComplete 1 [1]; Get kb None; BatchDel [kp; kb]; Get kp None] in
+  raw_meta kb = false /\ raw_meta kp = false /\
+  forallb op_in_domain ops = true /\
+  snd (fst (run cfg_plain init_state ops)) = [] /\
+  fst (fst (run cfg_plain init_state ops)) =
+    [ROk; ROk; RNotFound; ROk; ROk; ROk; ROk; RData [4; 5; 5]; ROk; RData [5; 5]; ROk; RNotFound;
+     ROk; ROk; ROk; RData [4; 5; 5]; ROk; RNotFound] /\
+  all2 meets (fst (srun sinit ops)) (fst (fst (run cfg_plain init_state ops))) = true.
+Proof. exact cross_routes_example. Qed.
+Print Assumptions c28_cross_routes_example.
 
 (* what the specification's completion selects: exactly the listed parts' bodies, in request order;
    and the list that raises no trigger 6 (all uploaded numbers, ascending) selects every part *)
